@@ -418,6 +418,15 @@ func (c *Container) Handle(pattern string, handler http.Handler) {
 // If a handler already exists for pattern, HandleWithFilter panics.
 func (c *Container) HandleWithFilter(pattern string, handler http.Handler) {
 	f := func(httpResponse http.ResponseWriter, httpRequest *http.Request) {
+		// Instal panic recovery unless told otherwise ; the filters run outside dispatch
+		if !c.doNotRecover { // catch all for 500 response
+			defer func() {
+				if r := recover(); r != nil {
+					c.recoverHandleFunc(r, httpResponse)
+					return
+				}
+			}()
+		}
 		if len(c.containerFilters) == 0 {
 			handler.ServeHTTP(httpResponse, httpRequest)
 			return
